@@ -4,7 +4,7 @@ from __future__ import annotations
 import ast
 import typing as T
 
-from ..core import Undecided, Module, attr_chain, call_method, norm, short, walk_no_nested
+from ..core import Undecided, Module, attr_chain, call_method, call_name, norm, short, walk_no_nested
 
 FuncNode = T.Union[ast.FunctionDef, ast.AsyncFunctionDef]
 
@@ -339,6 +339,36 @@ def _copy_at(e: ast.AST, where: ast.AST) -> ast.AST:
     return c
 
 
+def _linearise_returns(body: T.List[ast.stmt], res: str) -> T.Optional[T.List[ast.stmt]]:
+    """Body in which every path ends in `return e` -> the same body with `res = e` and no return (guard clauses become if/else)."""
+    import copy as _copy
+    out: T.List[ast.stmt] = []
+    for i, st in enumerate(body):
+        if isinstance(st, ast.Return):
+            v = st.value if st.value is not None else ast.Constant(value=None)
+            out.append(ast.copy_location(ast.Assign(targets=[ast.Name(id=res, ctx=ast.Store())], value=_copy.deepcopy(v)), st))
+            return out
+        if isinstance(st, ast.If):
+            rest = body[i + 1:]
+            b_ret = any(isinstance(x, ast.Return) for s_ in st.body for x in walk_no_nested(s_))
+            o_ret = any(isinstance(x, ast.Return) for s_ in st.orelse for x in walk_no_nested(s_))
+            if b_ret or o_ret:
+                tb = _linearise_returns(list(st.body) + ([] if _ends_in_return(st.body) else rest), res)
+                eb = _linearise_returns(list(st.orelse) + ([] if _ends_in_return(st.orelse) and st.orelse else rest), res)
+                if tb is None or eb is None:
+                    return None
+                out.append(ast.copy_location(ast.If(test=_copy.deepcopy(st.test), body=tb, orelse=eb), st))
+                return out
+        if any(isinstance(x, ast.Return) for x in walk_no_nested(st)):
+            return None            # a return inside a loop / try / with: not handled
+        out.append(_copy.deepcopy(st))
+    return None                    # falls off the end without a return
+
+
+def _ends_in_return(body: T.List[ast.stmt]) -> bool:
+    return bool(body) and isinstance(body[-1], (ast.Return, ast.Raise))
+
+
 def _inlinable(callee: FuncNode) -> T.Optional[T.Optional[ast.AST]]:
     """None if not inlinable; else ('no-value' -> ast.Constant(None) sentinel) the trailing return expression or a None-constant."""
     body = [s for s in callee.body if not (isinstance(s, ast.Expr) and isinstance(s.value, ast.Constant))]
@@ -356,6 +386,8 @@ def _inlinable(callee: FuncNode) -> T.Optional[T.Optional[ast.AST]]:
         return ast.Constant(value=None)
     if len(rets) == 1 and body[-1] is rets[0]:
         return rets[0].value if rets[0].value is not None else ast.Constant(value=None)
+    if _linearise_returns(body, '__res__') is not None:
+        return ast.Name(id='__res__', ctx=ast.Load())       # several returns, every path ends in one: handled by _inline_call
     return None
 
 
@@ -397,7 +429,13 @@ def _inline_call(call: ast.Call, callee: FuncNode, uid: int, is_method: bool) ->
         recv_e = call.func.value if isinstance(call.func, ast.Attribute) else None
         if recv_e is None or attr_chain(recv_e) != 'self':
             return None
-    if body and isinstance(body[-1], ast.Return):
+    if isinstance(ret, ast.Name) and ret.id == '__res__':
+        lin = _linearise_returns(body, '__res__')
+        if lin is None:
+            return None
+        body = lin
+        mapping['__res__'] = ast.Name(id=f'res__i{uid}', ctx=ast.Load())
+    elif body and isinstance(body[-1], ast.Return):
         body = body[:-1]
     rn = _Rename(mapping)
     out = pre + [rn.visit(s) for s in body]
@@ -585,6 +623,7 @@ def normal_func(mod: Module, q: str, resolve_method: T.Optional[T.Callable[[str]
         return cache[key]
     raw = fn if fn is not None else mod.func(q)
     f2 = _copy.deepcopy(raw)
+    _expand_partials(f2)
     cls = q.rsplit('.', 1)[0] if '.' in q else None
     nz = _Normaliser(mod, cls, resolve_method)
     nz.stack.append(q if '.' not in q else q)
@@ -642,3 +681,22 @@ def fold_template(e: ast.AST, var: str, mark: str = 'KIND') -> T.Optional[str]:
         ts = [fold_template(a, var, mark) for a in e.args[0].elts]
         return None if any(t is None for t in ts) else ''.join(ts)  # type: ignore[arg-type]
     return None
+
+
+def _expand_partials(fn: FuncNode) -> None:
+    """`f = functools.partial(g, a, k=v)` ... `f(x)`  ->  `g(a, x, k=v)` (single-definition locals only; done in place)."""
+    loc = Locals(fn)
+    bound: T.Dict[str, ast.Call] = {}
+    for nm, ds in loc.defs.items():
+        if len(ds) == 1 and isinstance(ds[0], ast.Call) and call_name(ds[0]) in ('functools.partial', 'partial') and ds[0].args \
+                and not any(isinstance(a, ast.Starred) for a in ds[0].args):
+            bound[nm] = ds[0]
+    if not bound:
+        return
+    import copy as _copy
+    for c in ast.walk(fn):
+        if isinstance(c, ast.Call) and isinstance(c.func, ast.Name) and c.func.id in bound:
+            p = bound[c.func.id]
+            c.func = _copy.deepcopy(p.args[0])
+            c.args = [_copy.deepcopy(a) for a in p.args[1:]] + c.args
+            c.keywords = [_copy.deepcopy(k) for k in p.keywords] + c.keywords
